@@ -297,6 +297,9 @@ def gen_mc(scen, outdir=GEN):
     tr = ["SPECIFICATION TSpec"] + clt + ["INVARIANTS", " Accepted", " MonOK"] + [" " + i for i in tinv] + ["CONSTRAINT NotYetAccepted", "CHECK_DEADLOCK FALSE"]
     with open(os.path.join(outdir, f"MCT_{name}.cfg"), "w") as f:
         f.write("\n".join(tr) + "\n")
+    mo = ["SPECIFICATION TMonSpec"] + clt + ["INVARIANTS", " Accepted", " MonOK", "CONSTRAINT NotYetAccepted", "CHECK_DEADLOCK FALSE"]
+    with open(os.path.join(outdir, f"MCM_{name}.cfg"), "w") as f:
+        f.write("\n".join(mo) + "\n")
     dg = ["SPECIFICATION TSpec"] + clt + ["CONSTRAINT DiagAt", "CHECK_DEADLOCK FALSE"]
     with open(os.path.join(outdir, f"MCD_{name}.cfg"), "w") as f:
         f.write("\n".join(dg) + "\n")
